@@ -548,10 +548,19 @@ fn sanitizer_workload(args: &Args, prop: &'static str) -> i32 {
 
 fn rule_for(prop: &str) -> &'static str {
     match prop {
-        "C01" => "cases = seeded random task-level histories (plus thread-level scenarios); distinct = hash of the full event log; non-trivial = at least one admission happened with the pool one below its limit, after waiting, or with other callers waiting",
-        "C02" => "distinct = hash of the event log; non-trivial = the history had at least one quiescent point with a blocked getter (a caller had to wait) and reached the capacity probe or a failed/abandoned get",
-        "C05" | "C12" => "distinct = hash of the event log; non-trivial = at least one caller was blocked and the pool was full (C05) or closed (C12) at some point",
-        _ => "distinct = hash of the full event log of a case; non-trivial = the case contains at least one event relevant to the property (see DESIGN.md section 4, 'non-trivial rule')",
+        "C01" => "cases = seeded random task-level histories + thread-level sweep scenarios + chaos runs; distinct = hash of the full event log (sweep: the scenario; chaos: the schedule-point trace); non-trivial (tl) = at least one admission happened with the pool one below its limit, after the caller had to wait, or with other callers waiting; (sweep) = thread A was actually parked at the window",
+        "C02" => "distinct = hash of the event log; non-trivial (tl) = the history contains a failed, abandoned or panicking get AND a quiescent point at which a caller was blocked waiting for a slot; (sweep) = A parked at the window; (chaos) = a blocked get was cancelled or the pool was filled",
+        "C03" => "matrix cases = random prefix, then one get() driven to a chosen suspension point and abandoned in a chosen way, then random suffix + capacity probe; distinct = hash of the event log; non-trivial = an abandonment (drop / enclosing timeout / injected panic) actually happened at the chosen point",
+        "C04" => "enumeration cases = one path of the outcome tree of one get(); random cases = task-level histories; distinct = hash of the event log; non-trivial = at least one callback ended in an error, a panic or was dropped",
+        "C05" | "C12" => "distinct = hash of the event log (sweep: the scenario); non-trivial (utl) = at least one caller was blocked and the pool was full (C05) or closed (C12) at some point; (sweep) = A parked at the window",
+        "C06" => "distinct = hash of the event log; non-trivial (tl) = close() was issued while a getter was suspended or an object was checked out; (sweep) = A parked at the window",
+        "C07" => "distinct = hash of the event log; non-trivial (tl) = at least one shrink and at least one admission in the same history; (sweep) = A parked at the window",
+        "C08" => "distinct = hash of the event log; non-trivial = a get() popped from an idle queue holding at least two objects (the order clause had a choice to get wrong)",
+        "C09" => "distinct = hash of the event log; non-trivial = a retain() that both kept and removed objects, or a take()",
+        "C10" => "table cases = one directed scenario each (exhaustive); random cases = task-level histories with random timeouts and clock advances; non-trivial = a timeout or NoRuntimeSpecified result occurred, or the step under test did not finish immediately",
+        "C11" => "distinct = hash of the event log; non-trivial = status() was compared exactly at a quiescent point of a history that had blocked getters, a shrink or an abandonment",
+        "C13" => "distinct = hash of the event log; non-trivial = at least one object was handed out a second time",
+        _ => "distinct = hash of the full event log of a case; non-trivial = the case contains at least one event relevant to the property (see DESIGN.md section 4)",
     }
 }
 
